@@ -36,6 +36,21 @@ def targeted(sch, r):
                 ['and', ['not', ['not', ['not', g]]], A], ['if', ['not', g], A, F], ['and', ['ne', g, T], A],
                 # and the positive forms, which must keep validating
                 ['and', g, A], ['if', g, A, F], ['and', ['and', g, T], A], ['and', ['not', ['not', g]], A]]
+    # two DIFFERENT presence tests joined by || or by the branches of an if: only what BOTH establish survives (capability intersection);
+    # the same number of capabilities on either side, different contents
+    flagc = acc(C, 'flag')
+    tests = [(['has', P, S('age')], ['gt', acc(P, 'age'), lit(gen.vlong(1))]),
+             (['has', P, S('__tag:k')], ['eq', acc(P, '__tag:k'), lit(gen.vstr('x'))]),
+             (['hasTag', P, lit(gen.vstr('k'))], ['eq', ['getTag', P, lit(gen.vstr('k'))], lit(gen.vstr('x'))]),
+             (['hasTag', P, lit(gen.vstr('t'))], ['eq', ['getTag', P, lit(gen.vstr('t'))], lit(gen.vstr('x'))]),
+             (['has', acc(C, 'a.b'), S('c')], ['eq', acc(acc(C, 'a.b'), 'c'), lit(gen.vlong(1))]),
+             (['has', acc(acc(C, 'a'), 'b'), S('c')], ['eq', acc(acc(acc(C, 'a'), 'b'), 'c'), lit(gen.vlong(1))])]
+    for i, (g1, a1) in enumerate(tests):
+        for j, (g2, a2) in enumerate(tests):
+            if i != j and sch is None:          # (the fixed schema declares what they mention)
+                out += [['and', ['or', g1, g2], a1], ['and', ['or', g1, g2], a2], ['and', ['if', flagc, g1, g2], a1], ['and', ['if', flagc, g1, g2], a2],
+                        ['and', ['or', ['and', g1, g2], g2], a1], ['and', ['or', ['and', g1, g2], g2], a2], ['and', ['and', g1, g2], ['and', a1, a2]],
+                        ['and', ['or', ['and', g1, g2], ['and', g2, g1]], ['and', a1, a2]]]
     # least upper bound of records of different width, the wider one in either branch, accessed without a guard
     narrow = ['mkrec', [S('a'), lit(gen.vlong(1))]]
     wide = ['mkrec', [S('a'), lit(gen.vlong(1))], [S('b'), lit(gen.vlong(2))]]
@@ -231,6 +246,27 @@ action noapply in [grp];
             n += 1
             pol = ['policy', S('p'), 'permit', ps_, as_, rs_, cn, ['annots']]
             cases.append('(case v%d validate %s %s %s %s)' % (n, S(fixed3), mode, sx.dump(pol), sx.dump(envs3)))
+    # deep entity-type hierarchies: `in` scopes must reach descendants at every depth
+    fixed4 = 'entity L0;\n' + ''.join('entity L%d in [L%d]%s;\n' % (i, i - 1, ' { deep: Long }' if i == 5 else '') for i in range(1, 6)) + \
+             'action view appliesTo { principal: [L5, L1, L3], resource: [L5, L0, L2], context: {} };\n'
+    inf4 = lib.run_go(['(case i0 schemainfo %s)' % S(fixed4)], 'schemainfo', ctx.workdir).get('i0', '(missing)')
+    st4 = ['store'] + [['ent', E('L%d' % i, 'x'), ['parents'] + ([E('L%d' % (i - 1), 'x')] if i else []), ['attrs'] + ([[S('deep'), gen.vlong(1)]] if i == 5 else []), ['tags']] for i in range(6)]
+    envs4 = ['envs'] + [['env', st4, ['req', E(pt, 'x'), E('Action', 'view'), E(rt, 'x'), gen.vrec([])]] for pt in ('L5', 'L1', 'L3') for rt in ('L5', 'L0', 'L2')]
+    deepc = [['conds', ['when', ['gt', ['access', ['var', 'principal'], S('deep')], lit(gen.vlong(0))]]],
+             ['conds', ['when', ['gt', ['access', ['var', 'resource'], S('deep')], lit(gen.vlong(0))]]], ['conds']]
+    w4 = 0
+    for k in range(6):
+        for ps_ in (['in', E('L%d' % k, 'x')], ['isin', S('L5'), E('L%d' % k, 'x')], ['isin', S('L3'), E('L%d' % k, 'x')], ['is', S('L5')], ['all']):
+            for rs_ in (['in', E('L%d' % k, 'x')], ['isin', S('L5'), E('L%d' % k, 'x')], ['all'], ['eq', E('L5', 'x')]):
+                for cn in deepc:
+                    for mode in ('strict', 'permissive'):
+                        pol = ['policy', S('p'), 'permit', ps_, ['all'], rs_, cn, ['annots']]
+                        w4 += 1
+                        if inf4.startswith('(info '):
+                            vcases.append('(case wd%d vverdict %s %s %s %s)' % (w4, S(fixed4), inf4, mode, sx.dump(pol)))
+                        if w4 % 3 == 0 or not quick:
+                            n += 1
+                            cases.append('(case v%d validate %s %s %s %s)' % (n, S(fixed4), mode, sx.dump(pol), sx.dump(envs4)))
     wi = 0
     if inf3.startswith('(info '):
         combos = [(ps_, as_, rs_, cn) for ps_ in pscopes for as_ in ascopes for rs_ in pscopes for cn in cnds]
